@@ -32,7 +32,7 @@ META = {
              "binary64 arithmetic.", "6.5", "Conservation is proved on exact sums; the bit-exact float model is validated, not proved, against Go."),
     "C06": m("Theorems: any sequence of Swap calls keeps whole rows together (covers whatever sort.Sort does), the model's result is a permutation of the "
              "input rows, the comparator is a strict weak order on one-kind columns, insertion sort under such a comparator is sorted, nil last in both "
-             "directions. The real SortValues output is checked through the ordered-permutation specification (tie order free) and on its sort columns.", "6.6",
+             "directions. The real SortValues output is checked through the ordered-permutation specification (tie order free) and on its sort columns. Known finding D15 (KNOWN_FINDINGS.txt): integers beyond 2^53 with one float64 image are a tie (refuted on the model by sort_wide_integers_refuted; proved to hold below 2^53 by int_col_canonical).", "6.6",
              "sort.Sort itself is standard-library code: modelled by a verified insertion sort; its contract (sorts under a strict weak order, touches data "
              "only through Less/Swap) is assumed."),
     "C07": m("Theorems: first/last/none keep exactly the first/last/unique member of every class of identical rows, in order, no false merge whatever the "
